@@ -196,15 +196,19 @@ def both_ties(ctx, stats):
     cases = gen_tree_cases(ctx)
     scs = gen_scenarios(ctx, False)
     write_inputs(ctx, cases, scs)
+    ctx.log("generated %d tree cases, %d scenarios" % (len(cases), len(scs)))
     rc, out = go_run(ctx)
+    ctx.log("go harness done rc=%s" % rc)
     touts = read_jsonl(os.path.join(ctx.work, "c09_tree_out.jsonl"))
     souts = read_jsonl(os.path.join(ctx.work, "c09_stop_out.jsonl"))
     if rc != 0 or len(touts) != len(cases) or len(souts) != len(scs):
         ctx.tie_broken("go-harness (tree ops + stop scenarios)", out)
     if len(touts) == len(cases):
         tree_tie(ctx, stats, cases, touts)
+        ctx.log("tree tie evaluated")
     if len(souts) == len(scs):
         stop_tie(ctx, stats, scs, souts)
+        ctx.log("stop tie evaluated")
 
 
 def tree_tie(ctx, stats, cases, outs):
